@@ -34,7 +34,7 @@ def is_pd(labels):
     return c in (b"p", b"P") or c in HEX
 
 
-def run_one(params, with_dups):
+def run_one(params, with_dups, faults=False):
     seed = params["seed"]
     rng = random.Random(params["rseed"])
     sim = scen.Sim("c16-%d-%d" % (params["idx"], int(with_dups)), seed)
@@ -81,13 +81,13 @@ def run_one(params, with_dups):
         k.at(T0 + trng.randrange(nticks * step) + 17, sv.frames.append, f)
     tdown = T0 + 13
     for _ in range(params["ndown"]):
-        f = frame("10.9.0.1", V.tun_ip, trng.choice([40, 100, 400, 900]), trng.choice(["random", "text"]))
+        f = frame("10.9.0.1", V.tun_ip, trng.choice([60, 90, 120] if params.get("many_down") else [40, 100, 400, 900]), trng.choice(["random", "text"]))
         nfr = (len(proto.deflate(f)) + params["frag"] - 1) // params["frag"]
-        tdown += trng.randrange(3 * step)
+        tdown += 0 if params.get("many_down") else trng.randrange(3 * step)
         if tdown >= T0 + nticks * step or nfr > 14:
             continue
         k.at(tdown, k.offer_tun, "srv", f, ident[0])
-        tdown += (nfr + 3) * step
+        tdown += (nfr + (trng.choice([0, 1, 1]) if params.get("many_down") else 3)) * step
     # re-deliveries (S1 only), from their own PRNG
     drng = random.Random(params["dseed"])
     dups = []      # (time, datagram bytes sent, kind, original datagram)
@@ -100,7 +100,9 @@ def run_one(params, with_dups):
         if not pool:
             return
         r = drng.random()
-        if r < 0.4:
+        if params.get("many_down") and pings and r < 0.5:
+            d = drng.choice(pings[:6])           # the oldest pings still inside the server's ping window
+        elif r < 0.4:
             d = V.dgrams[-drng.randint(1, min(4, len(V.dgrams)))]     # very recent: answer cache / pending
             if not is_pd([_first(d)]):
                 d = drng.choice(pool)
@@ -147,6 +149,18 @@ def run_one(params, with_dups):
         t = T0 + step + drng.randrange(nticks * step) + 7
         if with_dups:
             k.at(t, redeliver)
+    if faults:
+        # now and then the operating system refuses one of the server's sendto() calls: the query concerned was processed
+        # all the same, and a later copy of it is still a copy
+        xrng = random.Random(params["dseed"] ^ 0x5E2D)
+
+        def arm():
+            k.send_faults[:] = [f for f in k.send_faults if f["count"] > 0]
+            if len(k.send_faults) < 2:
+                k.send_faults.append({"proc": "srv", "dst_port": None, "errno": xrng.choice([105, 1, 11]), "count": 1,
+                                      "skip": xrng.choice([0, 0, 1, 2])})
+        for _ in range(xrng.randint(4, 14)):
+            k.at(T0 + xrng.randrange(nticks * step), arm)
     k.run(end)
     R.update(ok=True, k=k, srv=srv, V=V, dups=dups)
     return R
@@ -218,8 +232,10 @@ def invariant_and_cache(R, domain):
                     pass
         elif kind == "tun_read":
             inputs.append(("other", ev))
-        elif kind == "send":
-            sends.append(ev)
+        elif kind == "send" or (kind == "send_error" and kw.get("injected") and kw.get("data") is not None):
+            # (an answer the OS refused to send was still produced and entered the server's answer cache)
+            if kind == "send":
+                sends.append(ev)
             d = kw["data"]
             if d[:3] == proto.RAW_MAGIC:
                 continue
@@ -336,6 +352,21 @@ def scn(params):
         for (key, what, w) in v[:3]:
             out["violations"].append((key, what, dict(w, seed=params["seed"])))
         out["stats"].update(st)
+        if params.get("sendfaults") and not out["violations"]:
+            # third run: re-deliveries plus occasional sendto() failures on the server; the victim's own course may differ
+            # from the other two runs, so only the oracles that look at this run alone apply
+            R2 = run_one(params, True, faults=True)
+            try:
+                if R2["ok"] and R2["sim"].health(R2["srv"]) == "running":
+                    v2, st2, kinds2 = invariant_and_cache(R2, R2["sim"].domain)
+                    for (key, what, w) in v2[:3]:
+                        out["violations"].append((key, what, dict(w, seed=params["seed"], with_sendto_failures=True)))
+                    out["stats"]["sendfault_runs"] = 1
+                    out["stats"]["sendfault_failures_injected"] = sum(1 for e in R2["k"].log if e[1] == "send_error" and e[3].get("injected"))
+                    out["stats"]["sendfault_dup_iterations_judged"] = st2["dup_iterations_judged"]
+                    kinds |= {tuple(x) + ("sendfaults",) for x in kinds2}
+            finally:
+                R2["sim"].close()
         out["stats"]["server_tun_writes_compared"] = len(p0[0])
         out["stats"]["delivered_packets_compared"] = len(p0[1])
         out["evaluations"] = len(R1["dups"])
@@ -362,7 +393,8 @@ def run(ctx):
                 "another address with -c, swapped letter case with Base32). Oracles: differential (server tun writes, packets "
                 "delivered to the client, final transfer counters), per-iteration invariant on the users[] snapshot (counters "
                 "unchanged when only a re-delivered copy was handled), and same-payload rule for identical repeats of the three "
-                "most recently answered queries. evaluations = re-delivered datagrams; distinct non-trivial = (outcome class, "
+                "most recently answered queries; a third of the pairs get a third run with occasional sendto() failures on the server, judged "
+                "by the invariant and the same-payload rule only. evaluations = re-delivered datagrams; distinct non-trivial = (outcome class, "
                 "re-delivery kind, qtype, lazy, upstream codec, -c) of pairs with >=5 re-deliveries, >=3 judged iterations and "
                 "traffic delivered both ways.")
     res.assumptions = ["the client only accepts the first answer to an id it issued from its own port (as a stub resolver would)",
@@ -385,12 +417,17 @@ def run(ctx):
                       "lazy": rng.random() < 0.65, "frag": rng.choice([20, 50, 100, 200, 1000] if big else [20, 50, 100]),
                       "check_ip_off": rng.random() < 0.3, "step": rng.choice([40000, 100000, 250000]),
                       "nticks": rng.randint(80, 160), "nup": rng.randint(1, 6), "ndown": rng.randint(1, 7),
-                      "ndup": rng.randint(5, 60), "pending_case": rng.random() < 0.25})
+                      "ndup": rng.randint(5, 60), "pending_case": rng.random() < 0.25, "sendfaults": i % 3 == 0})
         if i % 4 == 3:
             # many single-fragment upstream packets: copies of data queries that are several *packets* old but still
             # inside the 15-entry data fingerprint window
             plist[-1].update(many_small_up=True, nup=rng.randint(12, 30), up="Base32" if rng.random() < 0.7 else plist[-1]["up"],
                              ndup=rng.randint(30, 80))
+        if i % 8 == 1:
+            # long downloads: many multi-fragment downstream packets, so that the 3-bit sequence number wraps while pings
+            # from one wrap earlier are still inside the 30-entry ping window
+            plist[-1].update(many_down=True, ndown=rng.randint(12, 22), nticks=rng.randint(180, 260), frag=50,
+                             lazy=rng.random() < 0.8, ndup=rng.randint(50, 90), nup=rng.randint(0, 2))
     if ctx.replay:
         plist = [ctx.replay["witness"]["params"]]
     res.min_evaluations = 0 if ctx.replay else 1500
